@@ -310,3 +310,95 @@ Definition hop_apply (h : hop) (v : jv) : jv :=
   | HDelete p i => jv_at p (delete_child i) v
   end.
 Definition hist_apply (hs : list hop) (v : jv) : jv := fold_left (fun t h => hop_apply h t) hs v.
+
+(* ------------------------------------------------------------------ the option formats *)
+(* json_c_set_serialization_double_format(fmt, JSON_C_OPTION_GLOBAL | JSON_C_OPTION_THREAD): one process-wide
+   format and one format per thread (__thread; when thread-local storage is not compiled in, the THREAD call
+   fails).  A double without its own serializer data prints with the calling thread's format, else the
+   global one, else "%.17g".  [fmtd f bits] is the libc oracle for snprintf(buf, 128, f, d) in full. *)
+Fixpoint prefix_of (pat l : list byte) : bool :=
+  match pat, l with
+  | [], _ => true
+  | p :: pat', x :: l' => (p =? x) && prefix_of pat' l'
+  | _ :: _, [] => false
+  end.
+(* strstr(l, pat) != NULL *)
+Fixpoint has_sub (pat l : list byte) : bool :=
+  prefix_of pat l || match l with [] => false | _ :: r => has_sub pat r end.
+
+(* the finite branch of json_object_double_to_json_string_format for any format: the same steps as
+   [double_fixup_with], ".0" only when format_drops_decimals *)
+Definition double_fixup_drops (drops : bool) (fl : sflags) (out : list byte) : list byte :=
+  let size := zlen out in
+  let buf := zfirstn 127 out in
+  let '(buf, p) := match split_at 44 buf with
+                   | Some (a, b) => (a ++ 46 :: b, Some (a, b))
+                   | None => (buf, split_at 46 buf)
+                   end in
+  let '(buf, size) :=
+     if (size <? 126) && looks_numeric buf size && (match p with None => true | Some _ => false end)
+        && negb (has_byte 101 buf) && drops
+     then (buf ++ [46;48], size + 2) else (buf, size) in
+  let '(buf, size) :=
+     match p with
+     | Some (a, b) => if nozero fl then let t := a ++ 46 :: nozero_trim b in (t, zlen t) else (buf, size)
+     | None => (buf, size)
+     end in
+  let size := if size >=? 128 then 127 else size in
+  zfirstn size buf.
+
+(* what a double prints under the option format [f] (a C string):
+   format_drops_decimals = (strstr(format, ".0f") == NULL) *)
+Definition opt_double_text (fmtd : list byte -> Z -> list byte) (f : list byte) (fl : sflags) (bits : Z) : list byte :=
+  if dbl_is_nan bits then s_NaN
+  else if dbl_is_inf bits then (if dbl_neg bits then s_mInfinity else s_Infinity)
+  else double_fixup_drops (negb (has_sub [46;48;102] f)) fl (fmtd f bits).
+
+(* The per-type emitters are those of [serialize]; only the double emitter consults the option format,
+   and what it appends does not depend on level or position.  So "serialize under the option format f"
+   is [serialize] on the tree in which every double without retained text carries, as a retained
+   text, the bytes the format prints for it (a retained text is appended verbatim; snprintf output
+   has no NUL). *)
+Fixpoint with_double_texts (pr : Z -> list byte) (v : jv) : jv :=
+  match v with
+  | JDouble b None => JDouble b (Some (pr b))
+  | JArr l => JArr (map (with_double_texts pr) l)
+  | JObj l => JObj (map (fun kv => (fst kv, with_double_texts pr (snd kv))) l)
+  | _ => v
+  end.
+
+Definition serialize_in (fmt17 : Z -> list byte) (fmtd : list byte -> Z -> list byte)
+                        (eff : option (list byte)) (fl : sflags) (level : nat) (v : jv) : list byte :=
+  match eff with
+  | None => serialize fmt17 fl level v
+  | Some f => serialize fmt17 fl level (with_double_texts (opt_double_text fmtd f fl) v)
+  end.
+
+(* the state json_c_set_serialization_double_format keeps: the global format and the threads' formats *)
+Record fmt_state := mkfs { g_fmt : option (list byte); t_fmt : list (Z * list byte) }.
+Definition fmt_init : fmt_state := mkfs None [].
+Fixpoint t_lookup (tid : Z) (l : list (Z * list byte)) : option (list byte) :=
+  match l with [] => None | (k, f) :: r => if k =? tid then Some f else t_lookup tid r end.
+Fixpoint t_remove (tid : Z) (l : list (Z * list byte)) : list (Z * list byte) :=
+  match l with [] => [] | (k, f) :: r => if k =? tid then t_remove tid r else (k, f) :: t_remove tid r end.
+Definition t_set (tid : Z) (f : option (list byte)) (l : list (Z * list byte)) : list (Z * list byte) :=
+  match f with Some f => (tid, f) :: t_remove tid l | None => t_remove tid l end.
+
+(* the call made by thread [tid]; scope 0 = JSON_C_OPTION_GLOBAL (also drops the CALLER's thread format),
+   1 = JSON_C_OPTION_THREAD, anything else is refused; [fmt] = None is the NULL pointer; returns the new
+   state and the return value *)
+Definition set_format (tls_supported : bool) (st : fmt_state) (tid : Z) (fmt : option (list byte)) (scope : Z)
+  : fmt_state * Z :=
+  let fmt := match fmt with Some f => Some (c_str f) | None => None end in
+  if scope =? 0 then (mkfs fmt (t_remove tid (t_fmt st)), 0)
+  else if scope =? 1 then
+    if tls_supported then (mkfs (g_fmt st) (t_set tid fmt (t_fmt st)), 0) else (st, -1)
+  else (st, -1).
+
+(* the format json_object_double_to_json_string_format picks in thread [tid] (None = "%.17g") *)
+Definition effective (st : fmt_state) (tid : Z) : option (list byte) :=
+  match t_lookup tid (t_fmt st) with Some f => Some f | None => g_fmt st end.
+
+Definition serialize_thread (fmt17 : Z -> list byte) (fmtd : list byte -> Z -> list byte)
+                            (st : fmt_state) (tid : Z) (fl : sflags) (level : nat) (v : jv) : list byte :=
+  serialize_in fmt17 fmtd (effective st tid) fl level v.
